@@ -14,6 +14,7 @@
 EXTENDS LayoutOps
 
 CONSTANTS Mode,              \* "pairs" or "acc"
+          MaxSteps,          \* length of the accessor histories
           AsFoundAlias       \* TRUE reproduces F6: name_components hands out the internal list
 
 VARIABLES ph, case, out
@@ -72,19 +73,26 @@ KeyEqualityLaws ==
     /\ out = "either" => Key(case.a) = Key(case.b)
 
 -----------------------------------------------------------------------------
-(* Part 2: accessor / mutate / observe *)
+(* Part 2: accessor / mutate / observe.                                                                           *)
+(* case = [obj, warm, h]: the kind of object, whether it has been observed (every accessor read once) before the   *)
+(* history starts - a lazily filled per-accessor cache would behave differently on the first read -, and the       *)
+(* history of (accessor, mutation) steps.  out = what the object shows; it never changes.                          *)
 Accessors == {"attributes", "fields", "fields_except_padding", "constants", "name_components", "namespace_components"}
 Ops == {"append", "clear", "pop", "reverse", "setitem"}
+ObjKinds == {"st", "un", "del", "inner", "svc", "req"}      \* structure, union, delimited + its inner type, service + its request
 \* what the object shows: name components and the numbers of attributes; a handed-out list is a copy unless aliased
 Obj0 == [names |-> <<"ns", "sub", "T">>, nattr |-> 3]
 MutList(l, op) == CASE op = "append" -> Append(l, "zz") [] op = "clear" -> <<>> [] op = "pop" -> IF l = <<>> THEN l ELSE SubSeq(l, 1, Len(l) - 1)
                     [] op = "reverse" -> [j \in DOMAIN l |-> l[Len(l) + 1 - j]] [] op = "setitem" -> IF l = <<>> THEN l ELSE [l EXCEPT ![1] = "zz"]
-AInit == ph = 0 /\ case = <<>> /\ out = Obj0
-AStep == /\ Mode = "acc" /\ ph < 3
+AInit == ph = 0 /\ case = [obj |-> "st", warm |-> FALSE, h |-> <<>>] /\ out = Obj0
+APick == /\ Mode = "acc" /\ ph = 0
+         /\ \E o \in ObjKinds, w \in BOOLEAN : case' = [obj |-> o, warm |-> w, h |-> <<>>]
+         /\ out' = Obj0 /\ ph' = 1
+AStep == /\ Mode = "acc" /\ ph >= 1 /\ ph <= MaxSteps
          /\ \E a \in Accessors, op \in Ops :
-              /\ case' = Append(case, [acc |-> a, op |-> op])
+              /\ case' = [case EXCEPT !.h = Append(@, [acc |-> a, op |-> op])]
               /\ out' = IF AsFoundAlias /\ a = "name_components" THEN [out EXCEPT !.names = MutList(@, op)] ELSE out
          /\ ph' = ph + 1
-ASpec == AInit /\ [][AStep]_vars
+ASpec == AInit /\ [][APick \/ AStep]_vars
 ProjectionUnchanged == out = Obj0
 =============================================================================
